@@ -174,6 +174,32 @@ def run_shard(desc):
     else:
         for _ in range(hi - lo):
             items.append((flat_walk(rnd), None))
+    pre = []
+    if kind == "withregs":
+        # the same built-in-only programs in a process where unrelated operators have been registered on the built-in precedence
+        # levels (and next to them) with either associativity: what is registered besides must not regroup the built-ins
+        LEVELS = [20, 40, 50, 60, 70, 80, 90, 100, 110, 120, 200]
+        for j, nm in enumerate(rnd.sample(["zzopa", "yyopb", "xxopc", "wwopd", "vvope", "uuopf"], rnd.randint(1, 5))):
+            lvl = rnd.choice(LEVELS)
+            pre.append({"op": "reg_infix", "name": nm, "prec": max(1, lvl + rnd.choice([0, 0, 0, -1, 1])), "type": rnd.choice(["CALC", "CALC", "SETTER"]), "assoc": rnd.choice(["LEFT", "RIGHT"]), "beh": {"id": 50 + j}})
+        if rnd.random() < 0.5:
+            pre.append({"op": "reg_prefix", "name": "ttpre", "beh": {"id": 60}})
+            pre.append({"op": "reg_postfix", "name": "sspost", "beh": {"id": 61}})
+        for _ in range(hi - lo):
+            x = rnd.random()
+            if x < 0.5:
+                toks = ["a"]
+                for i in range(rnd.choice([2, 3, 3, 4])):
+                    op = rnd.choice(INFIX)
+                    if rnd.random() < 0.25 and op not in ref.BUILTIN_PREFIX:
+                        toks.append("not")
+                    toks += [op, "bcde"[i]]
+                items.append((rnd.choice(LAYOUTS).join(toks), None))
+            elif x < 0.8:
+                items.append((flat_walk(rnd), None))
+            else:
+                t = gen.TreeGen(rnd).program(d=rnd.randint(1, 3))
+                items.append((ref.join_tokens(ref.Renderer(rnd=rnd).tokens(t), rnd=rnd, compact=rnd.choice([0, 0.5])), t))
     todo = []
     for text, exp in items:
         try:
@@ -192,7 +218,7 @@ def run_shard(desc):
         todo.append((text, got))
     steps = [{"op": "parse", "text": t, "want": "a"} for t, _ in todo]
     wd = common.workdir(PROP)
-    recs, events, _ = common.run_batch(steps, wd, "%s-%d" % (kind, si), profile)
+    recs, events, _ = common.run_batch(steps, wd, "%s-%d" % (kind, si), profile, pre=pre)
     part = {"evaluations": 0, "classes": set(), "violations": [], "samples": [], "abstained": abstained, "inconclusive": [], "counts": {"harness_skips": harness_skips, "wl_" + kind: 0}}
     for (text, exp), r in zip(todo, recs):
         if r is None:
@@ -211,7 +237,10 @@ def run_shard(desc):
             what = "`%s` is well-formed but parse gave %s" % (text, r.get("perr") or r.get("ppanic"))
             sig = ["rejected", shape(exp), str(r.get("perr") or "panic")[:40]]
         if len(part["violations"]) < 40:
-            part["violations"].append({"sig": sig, "what": what, "replay": {"steps": [{"op": "parse", "text": text, "want": "a"}], "expected_ast": exp, "profile": profile}})
+            if pre:
+                what = "after registering %s: %s" % (", ".join("%s %s (%s %s)" % (r_["op"][4:], r_["name"], r_.get("prec", ""), r_.get("assoc", "")) for r_ in pre), what)
+                sig = ["with-registrations"] + sig
+            part["violations"].append({"sig": sig, "what": what, "replay": {"steps": pre + [{"op": "parse", "text": text, "want": "a"}], "expected_ast": exp, "profile": profile}})
     for kind_, detail, k in events:
         if kind_ in ("signal", "hang", "deadlock"):
             text = todo[k][0] if k < len(todo) else "?"
@@ -242,6 +271,8 @@ def run(rep, tier):
         shards.append(("tree", i, 0, per, "release" if i % 2 else "verifdbg"))
     for i in range(nflat // per):
         shards.append(("flat", i, 0, per, "release" if i % 2 else "verifdbg"))
+    for i in range(16 if tier == "quick" else 160):
+        shards.append(("withregs", 100 + i, 0, 1500 if tier == "quick" else 8000, "release" if i % 2 else "verifdbg"))
     nlong = 640 if tier == "quick" else 16000
     for i in range(16):
         shards.append(("long", i, 0, nlong // 16, "release" if i % 2 else "verifdbg"))
@@ -259,7 +290,7 @@ def replay(path):
     r = d["replay"]
     wd = common.workdir(PROP, "replay")
     run = common.run_vexec(r["steps"], wd, "replay", r.get("profile", "verifdbg"))
-    rec = run.steps()[0] if run.steps() else {}
+    rec = run.steps()[-1] if run.steps() else {}
     print(json.dumps(rec, ensure_ascii=False))
     if rec.get("ast") == r.get("expected_ast"):
         print("replay: AST now equals the documented grouping")
